@@ -11,6 +11,7 @@ The regex engine, digests, base64/hex, latin1, float formats and strf(n)time are
 external libraries and are not decided here (DESIGN.md §6)."""
 import copy
 import json
+import os
 import random
 import re
 import time
@@ -229,14 +230,585 @@ def key_of(fam, c):
     return key
 
 
-def run(tier, seed):
+# =====================================================================================================================
+# The regex section: spec/Regex.tla (reference matcher and functions), RegexProg.tla (several operations in one process),
+# RegexCases.tla / RegexGen.tla (case space), RegexMC.tla (laws), RegexObs.tla (judge).  Everything below spells tokens,
+# builds command lines and splits output text; no expected value is computed here.
+# =====================================================================================================================
+RX_LETTERS = [("a", "A", "b", "B"), ("q", "Q", "r", "R"), ("k", "K", "w", "W")]      # (a < b in every column: ranges a-b, A-B)
+RX_E2 = ["é", "ñ", "ü"]
+RX_FIXED = {"c3": "中", "us": "_", "lt": "<", "gt": ">", "colon": ":", "dot": ".", "comma": ",", "eq": "=", "bsl": "\\",
+            "lp": "(", "rp": ")", "bar": "|", "lb": "[", "rb": "]", "hat": "^", "dollar": "$", "star": "*", "plus": "+",
+            "qm": "?", "dash": "-", "d": "d"}
+RX_FAMS = ["twice", "chain", "caps", "field", "verbs"]
+RX_FN = {1: "sub", 2: "sub", 3: "gsub", 4: "gsub", 5: "regextract", 6: "regextract_or_else", 7: "strmatch", 8: "strmatchx",
+         9: "=~", 10: "captures", 11: "!=~", 12: "captures"}
+RX_X = ['sub($s, {R}, "_")', 'sub($s, {R}, "{T}")', 'gsub($s, {R}, "_")', 'gsub($s, {R}, "{T}")', 'regextract($s, {R})',
+        'regextract_or_else($s, {R}, "_")', 'strmatch($s, {R})', 'strmatchx($s, {R})']
+RX_Y = ['($s =~ {R})', '"<\\0:\\1:\\2>"', '($s !=~ {R})', '"\\1:\\0"']
+RX_SHOW = ('print NR . "|%d|" . typeof(r%d) . "|" . (is_error(r%d) ? "" : ((is_map(r%d) || is_array(r%d)) ? json_stringify(r%d) : r%d));')
+RX_LINE = re.compile(r"^(\d+)\|(\d+)\|([a-z]+)\|(.*)$", re.S)
+RX_SPELL = {"lit": '"%s"', "liti": '"%s"i', "flag": '"(?i)%s"', "field": "$r", "fieldflag": "$r"}
+RX_BATCH = 4000
+
+
+class RxAlphabet:
+    def __init__(self, seed):
+        rnd = random.Random(seed * 7919 + 15)
+        la, ua, lb, ub = RX_LETTERS[rnd.randrange(3)]
+        self.rep = dict(RX_FIXED)
+        self.rep.update({"a": la, "A": ua, "b": lb, "B": ub, "e2": RX_E2[rnd.randrange(3)]})
+        for d in "0123456789":
+            self.rep[d] = d
+        self.inv = {ch: name for name, ch in self.rep.items()}
+
+    def text(self, toks):
+        return "".join(self.rep[t] for t in toks)
+
+    def toks(self, text):
+        return [self.inv.get(ch, "other") for ch in text]
+
+
+def rx_program(exprs, first, uses):
+    """One DSL program evaluating exprs (results numbered 100 * g + first ...) for every use g = (regex operand, replacement)
+    on every row and printing NR|number|typeof|text."""
+    out = []
+    for g, (R, T) in enumerate(uses):
+        for k, e in enumerate(exprs):
+            i = 100 * g + first + k
+            out.append("r%d = %s;" % (i, e.replace("{R}", R).replace("{T}", T)))
+        for k in range(len(exprs)):
+            i = 100 * g + first + k
+            out.append(RX_SHOW % ((i,) * 7))
+    return " ".join(out)
+
+
+def rx_mx(payload, ra):
+    """The JSON text of a strmatchx result -> [keys, full, fs, fe, caps, st, en] (splitting only)."""
+    bad = {"keys": ["unparsed"], "full": [], "fs": 0, "fe": 0, "caps": [], "st": [], "en": []}
+    try:
+        v = json.loads(payload, object_pairs_hook=lambda ps: ("map", ps))
+    except Exception:
+        return bad
+    return rx_mx_of(v, ra) or bad
+
+
+def rx_mx_of(v, ra):
+    if not (isinstance(v, tuple) and v[0] == "map"):
+        return None
+    x = {"keys": [], "full": [], "fs": 0, "fe": 0, "caps": [], "st": [], "en": []}
+    for k, val in v[1]:
+        if k == "matched" and isinstance(val, bool):
+            x["keys"].append("matched:" + ("true" if val else "false"))
+            continue
+        x["keys"].append(k)
+        if k == "full_capture" and isinstance(val, str):
+            x["full"] = ra.toks(val)
+        elif k in ("full_start", "full_end") and isinstance(val, int) and not isinstance(val, bool):
+            x["fs" if k == "full_start" else "fe"] = val
+        elif k == "captures" and isinstance(val, list) and all(isinstance(e, str) for e in val):
+            x["caps"] = [ra.toks(e) for e in val]
+        elif k in ("starts", "ends") and isinstance(val, list) and all(isinstance(e, int) and not isinstance(e, bool) for e in val):
+            x["st" if k == "starts" else "en"] = val
+        else:
+            x["keys"][-1] = "unparsed:" + k
+    return x
+
+
+RX_MX0 = {"keys": [], "full": [], "fs": 0, "fe": 0, "caps": [], "st": [], "en": []}
+
+
+RX_GROUP = 8
+
+
+def rx_call_jobs(mlr, pats, subjects, ra):
+    """The processes of the "call" family.  Literal spellings: one process per (RX_GROUP patterns of one alphabet, spelling,
+    program X / Y) over all subjects of that alphabet; field spellings: rows (subject, regex text) of many patterns per process."""
+    jobs = []            # (case, meta)  meta = (first, spelling, [[(pattern index, subject index) of row 1, row 2 ...] per use g])
+    for sa in sorted(subjects):
+        pis = [pi for pi, p in enumerate(pats) if p["sa"] == sa]
+        rows = "".join(json.dumps({"s": ra.text(s)}, ensure_ascii=False) + "\n" for s in subjects[sa])
+        for k in range(0, len(pis), RX_GROUP):
+            grp = pis[k:k + RX_GROUP]
+            for sp in ("lit", "liti", "flag"):
+                uses = [(RX_SPELL[sp] % ra.text(pats[pi]["text"]), ra.text(pats[pi]["t"])) for pi in grp]
+                for first, exprs in ((1, RX_X), (9, RX_Y)):
+                    jobs.append(({"argv": [mlr, "--ijsonl", "put", "-q", rx_program(exprs, first, uses)], "stdin": rows, "env": ENV,
+                                  "timeout_ms": 60000, "max_out": 64 << 20},
+                                 (first, sp, [[(pi, si) for si in range(len(subjects[sa]))] for pi in grp])))
+    byT = {}
+    for pi, p in enumerate(pats):
+        byT.setdefault(ra.text(p["t"]), []).append(pi)
+    for T, pis in sorted(byT.items()):
+        for sp in ("field", "fieldflag"):
+            pairs = [(pi, si) for pi in pis for si in range(len(subjects[pats[pi]["sa"]]))]
+            for k in range(0, len(pairs), RX_BATCH):
+                part = pairs[k:k + RX_BATCH]
+                rows = "".join(json.dumps({"s": ra.text(subjects[pats[pi]["sa"]][si]),
+                                           "r": ("(?i)" if sp == "fieldflag" else "") + ra.text(pats[pi]["text"])}, ensure_ascii=False) + "\n"
+                               for pi, si in part)
+                for first, exprs in ((1, RX_X), (9, RX_Y)):
+                    jobs.append(({"argv": [mlr, "--ijsonl", "put", "-q", rx_program(exprs, first, [("$r", T)])], "stdin": rows, "env": ENV,
+                                  "timeout_ms": 120000, "max_out": 64 << 20}, (first, sp, [part])))
+    return jobs
+
+
+def rx_call_collect(jobs, res):
+    """-> table[(pattern index, subject index, spelling)] = [exit, {i: (typeof, text)}, {first: process index}]"""
+    table = {}
+    for ji, ((case, meta), r) in enumerate(zip(jobs, res)):
+        ok = r["exit"] == 0 and not r["timed_out"]
+        lines = {}
+        for line in r["stdout"].split("\n"):
+            m = RX_LINE.match(line)
+            if m:
+                lines.setdefault(int(m.group(1)), {})[int(m.group(2))] = (TYPE_NAMES.get(m.group(3), m.group(3)), m.group(4))
+        first, sp, uses = meta
+        n = 8 if first == 1 else 4
+        for g, keys in enumerate(uses):
+            for nr, (pi, si) in enumerate(keys, start=1):
+                ent = table.setdefault((pi, si, sp), [0, {}, {}])
+                got = lines.get(nr, {})
+                for i in range(first, first + n):
+                    if 100 * g + i in got:
+                        ent[1][i] = got[100 * g + i]
+                    else:
+                        ent[0] = ent[0] or 1
+                if not ok:
+                    ent[0] = (-2 if r["timed_out"] else (r["exit"] or 1))
+                ent[2][first] = ji
+    return table
+
+
+def rx_out_of(ent, ra):
+    exit_, got, _ = ent
+    v = []
+    x = RX_MX0
+    for i in range(1, 13):
+        t, payload = got.get(i, ("missing", ""))
+        if i == 8 and t == "map":
+            x = rx_mx(payload, ra)
+            v.append({"k": t, "s": []})
+        elif t == "boolean":
+            v.append({"k": t, "s": [payload]})
+        else:
+            v.append({"k": t, "s": ra.toks(payload)})
+    return {"exit": exit_, "v": v, "x": x}
+
+
+def rx_call_obs(pats, subjects, table, ra):
+    """One line per (pattern, case mode); spellings with the same output share one entry."""
+    obs, index = [], []         # index[line] = (pattern index, ci)
+    for pi, p in enumerate(pats):
+        for ci, sps in ((False, ("lit", "field")), (True, ("liti", "flag", "fieldflag"))):
+            subs = []
+            for si, s in enumerate(subjects[p["sa"]]):
+                outs = []
+                for sp in sps:
+                    o = rx_out_of(table[(pi, si, sp)], ra)
+                    for prev in outs:
+                        if all(prev[k] == o[k] for k in ("exit", "v", "x")):
+                            prev["sp"] += "+" + sp
+                            break
+                    else:
+                        o["sp"] = sp
+                        outs.append(o)
+                subs.append({"s": s, "outs": outs})
+            obs.append({"fam": "call", "re": p["re"], "ci": ci, "t": p["t"], "subs": subs})
+            index.append((pi, ci))
+    return obs, index
+
+
+# ---- programs: several operations in one process -------------------------------------------------------------------
+def rx_name(n, ra):
+    return "${%s}" % ra.text(n)
+
+
+def rx_operand(rx, ra):
+    if rx["src"] == "field":
+        return rx_name(rx["f"], ra)
+    return RX_SPELL[rx["src"]] % ra.text(rx["tx"])
+
+
+def rx_statement(st, ra):
+    k = st["k"]
+    o = rx_name(st["o"], ra)
+    if k == "interp":
+        return '%s = "%s";' % (o, ra.text(st["a"]))
+    if k == "call":
+        return "%s = f();" % o
+    s, R = rx_name(st["s"], ra), rx_operand(st["rx"], ra)
+    if k in ("sub", "gsub", "regextract_or_else"):
+        return '%s = %s(%s, %s, "%s");' % (o, k, s, R, ra.text(st["a"]))
+    if k in ("regextract", "strmatch", "strmatchx"):
+        return "%s = %s(%s, %s);" % (o, k, s, R)
+    if k == "match":
+        return "%s = (%s =~ %s);" % (o, s, R)
+    if k == "notmatch":
+        return "%s = (%s !=~ %s);" % (o, s, R)
+    raise ValueError(k)
+
+
+def rx_verb_regex(rx, ra, quoted=True):
+    P = ra.text(rx["tx"])
+    if rx["src"] == "liti":
+        return '"%s"i' % P
+    return '"%s"' % P if quoted else P
+
+
+def rx_verb(vb, ra):
+    v = vb["v"]
+    if v == "put":
+        body = " ".join(rx_statement(st, ra) for st in vb["st"])
+        if any(st["k"] == "call" for st in vb["st"]):
+            fn = vb["fn"]
+            pre = 'func f(): str { %sreturn "%s"; } ' % (
+                ('"%s" =~ %s; ' % (ra.text(fn["s"]), rx_operand(fn["rx"], ra))) if fn["has"] else "", ra.text(fn["a"]))
+            body = pre + body
+        return ["put", body]
+    if v in ("sub", "gsub", "ssub"):
+        return [v, "-f", ",".join(ra.text(n) for n in vb["f"]), ra.text(vb["rx"]["tx"]), ra.text(vb["a"])]
+    if v == "cut":
+        return ["cut"] + (["-x"] if vb["g"] else []) + ["-r", "-f", ",".join(rx_verb_regex(r, ra) for r in vb["rs"])]
+    if v == "having-fields":
+        return ["having-fields", "--%s-matching" % vb["m"], rx_verb_regex(vb["rx"], ra)]
+    if v == "rename":
+        return ["rename"] + (["-g"] if vb["g"] else []) + ["-r", rx_verb_regex(vb["rx"], ra) + "," + ra.text(vb["a"])]
+    if v == "grep":
+        return ["grep"] + (["-i"] if vb["rx"]["src"] == "liti" else []) + (["-v"] if vb["g"] else []) + [ra.text(vb["rx"]["tx"])]
+    raise ValueError(v)
+
+
+def rx_prog_case(mlr, p, ra):
+    argv = [mlr, "--ijsonl", "--ojsonl"]
+    for k, vb in enumerate(p["chain"]):
+        argv += (["then"] if k else []) + rx_verb(vb, ra)
+    rows = ""
+    for rec in p["recs"]:
+        rows += json.dumps({ra.text(f["n"]): ra.text(f["v"]["s"]) for f in rec}, ensure_ascii=False) + "\n"
+    return {"argv": argv, "stdin": rows, "env": ENV, "timeout_ms": 20000, "max_out": 4 << 20}
+
+
+def rx_prog_out(stdout, ra):
+    """The JSON lines that came out -> records [n, v: [t, s, m, re]] (splitting only)."""
+    out = []
+    for line in stdout.split("\n"):
+        if not line.strip():
+            continue
+        try:
+            v = json.loads(line, object_pairs_hook=lambda ps: ("map", ps), parse_int=lambda x: ("num", x), parse_float=lambda x: ("num", x))
+        except Exception:
+            v = None
+        if not (isinstance(v, tuple) and v[0] == "map"):
+            out.append([{"n": ["unparsed"], "v": {"t": "?", "s": [], "m": RX_MX0, "re": []}}])
+            continue
+        rec = []
+        for k, val in v[1]:
+            if isinstance(val, bool):
+                fv = {"t": "b", "s": ["true" if val else "false"], "m": RX_MX0, "re": []}
+            elif isinstance(val, str):
+                fv = {"t": "s", "s": ra.toks(val), "m": RX_MX0, "re": []}
+            elif isinstance(val, tuple) and val[0] == "num":
+                fv = {"t": "s", "s": ra.toks(val[1]), "m": RX_MX0, "re": []}
+            elif isinstance(val, tuple) and val[0] == "map":
+                # (numbers inside the strmatchx map are parsed as ("num", text): turn them back into ints)
+                def unnum(z):
+                    if isinstance(z, tuple) and z[0] == "num":
+                        try:
+                            return int(z[1])
+                        except ValueError:
+                            return z[1]
+                    if isinstance(z, list):
+                        return [unnum(e) for e in z]
+                    return z
+                fv = {"t": "m", "s": [], "m": rx_mx_of(("map", [(kk, unnum(vv)) for kk, vv in val[1]]), ra) or dict(RX_MX0, keys=["unparsed"]), "re": []}
+            else:
+                fv = {"t": "?", "s": [], "m": RX_MX0, "re": []}
+            rec.append({"n": ra.toks(k), "v": fv})
+        out.append(rec)
+    return out
+
+
+def rx_validate(obs, chunk, threads):
+    """RegexObs over the observations -> (bad: {index: [[subject, spelling, result, part], ...]}, unconstrained: set of indices, states)."""
+    cfg = b3.cfg_text({"ObsFile": '"obs.ndjson"'}, invariants=["Conforms"])
+    parts = [(s, obs[s:s + chunk]) for s in range(0, len(obs), chunk)]
+
+    def one(p):
+        start, part = p
+        text = "".join(json.dumps(o) + "\n" for o in part)
+        r = vlib.tlc("RegexObs", cfg="gen.cfg", extra_files={"gen.cfg": cfg, "obs.ndjson": text}, workers=1, timeout=3000)
+        if r.error or r.violated:
+            raise vlib.Inconclusive("RegexObs failed: %s\n%s" % (r.error or r.violated, r.out[-3000:]))
+        if r.distinct != len(part):
+            raise vlib.Inconclusive("RegexObs visited %d of %d observations" % (r.distinct, len(part)))
+        bad = {start + q["line"] - 1: q["bad"] for q in r.printed if isinstance(q, dict) and "line" in q}
+        unc = {start + q["uline"] - 1 for q in r.printed if isinstance(q, dict) and "uline" in q}
+        return bad, unc, r.distinct
+    bad, unc, states = {}, set(), 0
+    with ThreadPoolExecutor(threads) as ex:
+        for b_, u_, n in ex.map(one, parts):
+            bad.update(b_)
+            unc |= u_
+            states += n
+    return bad, unc, states
+
+
+def rx_has_ref(toks):
+    return any(a == "bsl" and b.isdigit() for a, b in zip(toks, toks[1:]))
+
+
+def rx_prog_key(fam, p, out, rec_i, fld_i, part):
+    """Names the operation that wrote the field where the first difference is (which statement writes which field is
+    read off the program text; nothing is evaluated)."""
+    writer = {}
+    for vb in p["chain"]:
+        for st in vb["st"]:
+            writer[json.dumps(st["o"])] = st["k"]
+    verbs = [vb["v"] for vb in p["chain"] if vb["v"] != "put"]
+    op = None
+    if rec_i >= 1 and fld_i >= 1 and rec_i <= len(out) and fld_i <= len(out[rec_i - 1]):
+        op = writer.get(json.dumps(out[rec_i - 1][fld_i - 1]["n"]))
+    if op is None:
+        op = "+".join(verbs) if verbs else "put"
+    key = {"family": "regex-program", "kind": fam, "op": op, "part": part,
+           "multibyte": any(rx_multibyte(f["v"]["s"]) or rx_multibyte(f["n"]) for rec in p["recs"] for f in rec)}
+    for vb in p["chain"]:
+        if vb["v"] == "rename" and vb["g"] and rx_has_ref(vb["a"]):
+            key["rename_g_with_reference"] = True
+    return key
+
+
+def rx_multibyte(toks):
+    return any(t in ("e2", "c3") for t in toks)
+
+
+def rx_section(tier, seed, V, cov_all):
+    """The regex section. Returns (states, transitions, judged observations, evaluations, distinct non-trivial evaluations)."""
     t0 = time.time()
-    V = vlib.Verdicts(PROP)
+    thorough = tier == "thorough"
+    level = 4 if thorough else 3
+    jobsn = int(os.environ.get("VERIF_JOBS", 8))
+    mlr = os.environ.get("VERIF_C15_MLR") or vlib.build_mlr()
+    ra = RxAlphabet(seed)
+    cov = {"tlc_runs": [], "samples": [], "binary": mlr, "representatives": {k: ra.rep[k] for k in ("a", "A", "b", "B", "e2")}}
+    cov_all["regex"] = cov
+    vlib.build_harness("runner", tags="")
+
+    # ---- laws (in the background) and the case space ------------------------------------------------------------
+    pool = ThreadPoolExecutor(4)
+    laws_f = pool.submit(b3.check_laws, "RegexMC", {"L": level}, ("Laws",), 3000)
+
+    def gen(fam):
+        cases, g = b3.gen_cases("RegexGen", {"L": level, "Fam": '"%s"' % fam}, timeout=3000)
+        return fam, cases, g
+    fams = ["patterns", "subjects:std", "subjects:dot"] + RX_FAMS
+    gens = dict((fam, (cases, g)) for fam, cases, g in pool.map(gen, fams))
+    states = sum(g.distinct for _, g in gens.values())
+    transitions = sum(g.generated for _, g in gens.values())
+    pats = sorted(gens["patterns"][0], key=lambda p: json.dumps(p["text"]))
+    subjects = {"std": sorted([c["s"] for c in gens["subjects:std"][0]], key=lambda s: (len(s), s)),
+                "dot": sorted([c["s"] for c in gens["subjects:dot"][0]], key=lambda s: (len(s), s))}
+    progs = [(fam, p) for fam in RX_FAMS for p in sorted(gens[fam][0], key=lambda p: json.dumps(p, sort_keys=True))]
+    for fam in fams:
+        cov["tlc_runs"].append({"module": "RegexGen", "family": fam, "cases": len(gens[fam][0])})
+    vlib.log("[c15/regex] %d patterns, %d+%d subjects, %d programs generated in %.0fs" % (
+        len(pats), len(subjects["std"]), len(subjects["dot"]), len(progs), time.time() - t0))
+
+    # ---- run: the call family (many subjects per process) and the programs (one process each) -----------------------
+    cjobs = rx_call_jobs(mlr, pats, subjects, ra)
+    pcases = [rx_prog_case(mlr, p, ra) for _, p in progs]
+    allcases = [c for c, _ in cjobs] + pcases
+    res = vlib.run_cases(allcases)
+    vlib.confirm_timeouts(allcases, res)
+    cres, pres = res[:len(cjobs)], res[len(cjobs):]
+    table = rx_call_collect(cjobs, cres)
+    cobs, cindex = rx_call_obs(pats, subjects, table, ra)
+    pobs = [{"fam": "prog", "p": p, "exit": (-2 if r["timed_out"] else r["exit"]), "out": rx_prog_out(r["stdout"], ra)}
+            for (_, p), r in zip(progs, pres)]
+    nsub = sum(len(o["subs"]) for o in cobs)
+    vlib.log("[c15/regex] %d processes run (%d for %d pattern x mode x subject triples in 5 spellings, %d programs), %.0fs" % (
+        len(allcases), len(cjobs), nsub, len(pcases), time.time() - t0))
+
+    # ---- judge -------------------------------------------------------------------------------------------------------
+    per_c = max(8, (len(cobs) + 2 * jobsn - 1) // (2 * jobsn))
+    cbad, _, n1 = rx_validate(cobs, per_c, jobsn)
+    per_p = max(50, (len(pobs) + jobsn - 1) // jobsn)
+    pbad, punc, n2 = rx_validate(pobs, per_p, jobsn)
+    states += n1 + n2
+    transitions += n1 + n2
+    vlib.log("[c15/regex] judged, %.0fs" % (time.time() - t0))
+
+    laws = laws_f.result()
+    pool.shutdown()
+    if laws.violated:
+        raise vlib.Inconclusive("Regex.tla violates its own laws: %s\n%s" % (laws.violated, laws.out[-2000:]))
+    if any(isinstance(x, list) and x and x[0] == "law fails" for x in laws.printed):
+        raise vlib.Inconclusive("Regex.tla violates its own laws: %r" % [x for x in laws.printed if isinstance(x, list)][:3])
+    states += laws.distinct
+    transitions += laws.generated
+    cov["tlc_runs"].append({"module": "RegexMC", "L": level, "distinct_states": laws.distinct, "result": "no error",
+                            "laws": "found = exists, found is a match (independent positional language), leftmost, longest for one greedy item, "
+                                    "submatches inside the match, all-matches successive / non-overlapping / nothing skipped, no match = identity, "
+                                    "one match: gsub = sub, replacing by \\0 = identity, regextract / =~ / strmatchx agree, s[full_start:full_end] = "
+                                    "full_capture, case-insensitive = folded subject, folding only adds matches (no negated class), nullable = "
+                                    "matches the empty string, group count = parentheses of the text"})
+
+    # ---- violations ----------------------------------------------------------------------------------------------------
+    for li, bads in sorted(cbad.items()):
+        pi, ci = cindex[li]
+        p = pats[pi]
+        for sidx, sps, i, part in bads:
+            si, i = int(sidx) - 1, int(i)
+            s = subjects[p["sa"]][si]
+            sp = sps.split("+")[0]
+            ent = table[(pi, si, sp)]
+            key = {"family": "regex", "fn": RX_FN[i], "spelling": sp, "multibyte": rx_multibyte(s) or rx_multibyte(p["text"]),
+                   "nullable": bool(p["nul"]), "groups": p["ng"] > 0, "empty_subject": len(s) == 0}
+            if part:
+                key["part"] = part
+            if ent[0] != 0:
+                key["why"] = "crash" if ent[0] == -2 else "failed"
+            row = {"s": ra.text(s)}
+            if sp.startswith("field"):
+                row["r"] = ("(?i)" if sp == "fieldflag" else "") + ra.text(p["text"])
+            R = RX_SPELL[sp] % ra.text(p["text"]) if not sp.startswith("field") else "$r"
+            prog = rx_program(RX_X if i <= 8 else RX_Y, 1 if i <= 8 else 9, [(R, ra.text(p["t"]))])
+            V.violation(key, {"pattern": ra.text(p["text"]), "case_insensitive": ci, "spellings": sps, "subject": ra.text(s), "result": i,
+                              "function": RX_FN[i], "observed": ent[1].get(i), "replacement": ra.text(p["t"]), "program": prog, "row": row,
+                              "replay": "echo '%s' | mlr --ijsonl put -q '%s'" % (json.dumps(row, ensure_ascii=False), prog)})
+    for li in sorted(pbad):
+        fam, p = progs[li]
+        c, r = pcases[li], pres[li]
+        rec_i, fld_i, part = pbad[li][0]
+        key = rx_prog_key(fam, p, pobs[li]["out"], int(rec_i), int(fld_i), part)
+        if r["timed_out"] or "panic" in r["stderr"] or "goroutine " in r["stderr"]:
+            key["why"] = "crash"
+        V.violation(key, {"argv": c["argv"][1:], "stdin": c["stdin"], "exit": r["exit"], "stdout": r["stdout"][:2000], "stderr": r["stderr"][:600],
+                          "first_difference": {"record": int(rec_i), "field": int(fld_i), "part": part},
+                          "replay": "printf '%s' | mlr %s" % (c["stdin"].replace("\n", "\\n"), " ".join("'%s'" % a for a in c["argv"][1:]))})
+
+    # ---- non-vacuity of the judge: corrupted copies of conforming observations must be reported ---------------------
+    tests = rx_selftest(cobs, cbad, pobs, pbad, punc)
+    cov["obs_selftest"] = tests
+    if tests["ok"] is False:
+        raise vlib.Inconclusive("regex observation self-test failed: %r" % tests)
+
+    # ---- coverage ----------------------------------------------------------------------------------------------------
+    evaluations = sum(12 * len(sub["outs"][0]["sp"].split("+")) if len(sub["outs"]) == 1 else 12 * sum(len(o["sp"].split("+")) for o in sub["outs"])
+                      for o_ in cobs for sub in o_["subs"])
+    nontrivial = sum(1 for pi, p in enumerate(pats) for s in subjects[p["sa"]] if rx_multibyte(s) or any(ch in ("A", "B") for ch in s)) * 2 * 12
+    operations = sum(len(vb["st"]) if vb["v"] == "put" else 1 for _, p in progs for vb in p["chain"])
+    cov.update({
+        "patterns": len(pats), "subjects": {k: len(v) for k, v in subjects.items()},
+        "pattern_subject_pairs": nsub // 2, "spellings": ["\"P\"", "\"P\"i", "\"(?i)P\"", "$r = P", "$r = (?i)P"],
+        "functions": ["sub", "gsub", "regextract", "regextract_or_else", "strmatch", "strmatchx", "=~", "!=~", "\\0..\\9 after =~ / !=~"],
+        "call_evaluations": evaluations, "call_processes": len(cjobs),
+        "programs": {fam: len(gens[fam][0]) for fam in RX_FAMS}, "program_processes": len(pcases), "program_operations": operations,
+        "programs_unconstrained": len(punc), "programs_judged": len(pobs) - len(punc),
+        "nullable_patterns": sum(1 for p in pats if p["nul"]), "patterns_with_groups": sum(1 for p in pats if p["ng"] > 0),
+        "wall_s": round(time.time() - t0, 1),
+    })
+    k = len(pobs) // 2
+    cov["samples"].append({"argv": pcases[k]["argv"][1:], "stdin": pcases[k]["stdin"], "stdout": pres[k]["stdout"][:600]})
+    cov["samples"].append({"program": cjobs[len(cjobs) // 3][0]["argv"][-1][:400]})
+    return states, transitions, nsub * 1 + len(pobs) - len(punc), evaluations + operations, nontrivial + len(pobs) - len(punc)
+
+
+def rx_selftest(cobs, cbad, pobs, pbad, punc):
+    """Corrupted copies of conforming observations (gsub stopping after the first match, a capture shifted, a byte index,
+    the case flag ignored, a record lost, a captured text kept after a failed match ...) must each be reported."""
+    lines, names = [], []
+
+    def call_line(o, sub):
+        return {"fam": "call", "re": o["re"], "ci": o["ci"], "t": o["t"], "subs": [sub]}
+    want = {"gsub-first-only": None, "capture-off-by-one": None, "strmatchx-index-shifted": None, "case-flag-ignored": None,
+            "regextract-not-absent": None}
+    # (the cs line of the same pattern and subject, for "case-flag-ignored")
+    badsubs = {(li, int(b_[0]) - 1) for li, bs in cbad.items() for b_ in bs}
+    for li, o in enumerate(cobs):
+        if all(v is not None for v in want.values()):
+            break
+        for si, sub in enumerate(o["subs"]):
+            if len(sub["outs"]) != 1 or (li, si) in badsubs or sub["outs"][0]["exit"] != 0:
+                continue
+            v = sub["outs"][0]["v"]
+            if want["gsub-first-only"] is None and v[2]["s"] != v[0]["s"]:
+                a = copy.deepcopy(sub)
+                a["outs"][0]["v"][2] = copy.deepcopy(v[0])
+                want["gsub-first-only"] = (call_line(o, a), call_line(o, sub))
+            if want["capture-off-by-one"] is None and v[8]["s"] == ["true"] and len(sub["outs"][0]["x"]["caps"]) >= 2 \
+                    and sub["outs"][0]["x"]["caps"][0] != sub["outs"][0]["x"]["caps"][1]:
+                a = copy.deepcopy(sub)
+                caps = sub["outs"][0]["x"]["caps"]
+                a["outs"][0]["v"][9]["s"] = ["lt"] + sub["outs"][0]["x"]["full"] + ["colon"] + caps[1] + ["colon"] + caps[0] + ["gt"]
+                want["capture-off-by-one"] = (call_line(o, a), call_line(o, sub))
+            if want["strmatchx-index-shifted"] is None and sub["outs"][0]["x"]["fs"] >= 2:
+                a = copy.deepcopy(sub)
+                a["outs"][0]["x"]["fs"] += 1
+                a["outs"][0]["x"]["fe"] += 1
+                want["strmatchx-index-shifted"] = (call_line(o, a), call_line(o, sub))
+            if want["regextract-not-absent"] is None and v[4]["k"] == "absent":
+                a = copy.deepcopy(sub)
+                a["outs"][0]["v"][4] = {"k": "error", "s": []}
+                want["regextract-not-absent"] = (call_line(o, a), call_line(o, sub))
+            if want["case-flag-ignored"] is None and o["ci"] and li > 0 and (li - 1, si) not in badsubs and cobs[li - 1]["re"] == o["re"]:
+                other = cobs[li - 1]["subs"][si]
+                if len(other["outs"]) == 1 and other["outs"][0]["v"] != v and other["outs"][0]["exit"] == 0:
+                    a = copy.deepcopy(sub)
+                    a["outs"][0]["v"] = copy.deepcopy(other["outs"][0]["v"])
+                    a["outs"][0]["x"] = copy.deepcopy(other["outs"][0]["x"])
+                    want["case-flag-ignored"] = (call_line(o, a), call_line(o, sub))
+    pw = {"record-lost": None, "captures-kept-after-failed-match": None, "second-use-cached": None}
+    for li, o in enumerate(pobs):
+        if li in pbad or li in punc or o["exit"] != 0 or not o["out"]:
+            continue
+        if pw["record-lost"] is None and len(o["out"]) >= 2:
+            a = copy.deepcopy(o)
+            a["out"] = a["out"][1:]
+            pw["record-lost"] = (a, o)
+        if pw["captures-kept-after-failed-match"] is None:
+            # an interpolated literal that came out as "<:>" (after a failed match) replaced by a captured-looking text
+            for ri, rec in enumerate(o["out"]):
+                for fi, f in enumerate(rec):
+                    if f["v"]["t"] == "s" and f["v"]["s"] == ["lt", "colon", "gt"] and pw["captures-kept-after-failed-match"] is None:
+                        a = copy.deepcopy(o)
+                        a["out"][ri][fi]["v"]["s"] = ["lt", "a", "colon", "1", "gt"]
+                        pw["captures-kept-after-failed-match"] = (a, o)
+        if pw["second-use-cached"] is None and len(o["out"]) >= 1:
+            # two fields of one record that differ (e.g. the "P" and the "P"i result): the second made equal to the first
+            for ri, rec in enumerate(o["out"]):
+                outs = [fi for fi, f in enumerate(rec) if f["n"][:1] == ["us"] and f["v"]["t"] == "s"]
+                if len(outs) >= 2 and rec[outs[0]]["v"] != rec[outs[1]]["v"] and pw["second-use-cached"] is None:
+                    a = copy.deepcopy(o)
+                    a["out"][ri][outs[1]]["v"] = copy.deepcopy(rec[outs[0]]["v"])
+                    pw["second-use-cached"] = (a, o)
+        if all(v is not None for v in pw.values()):
+            break
+    want.update(pw)
+    for name, pair in want.items():
+        if pair is not None:
+            names.append(name)
+            lines += [pair[0], pair[1]]
+    missing = [n for n, pair in want.items() if pair is None]
+    if not lines:
+        return {"ok": None if (cbad or pbad) else False, "why": "no conforming candidate", "skipped_no_conforming_candidate": missing}
+    bad, _, _ = rx_validate(lines, len(lines), 1)
+    reported = sorted(bad)
+    ok = reported == list(range(0, len(lines), 2))
+    # (a candidate may be missing on a tree that breaks the property; missing candidates on a conforming run mean a broken case space)
+    if missing and not (cbad or pbad):
+        ok = False
+    return {"ok": ok, "reported": reported, "corruptions": names, "skipped_no_conforming_candidate": missing}
+
+
+def strings_section(tier, seed, V, cov, t0):
+    """The case-analysis section (Strings.tla, PrintfInt.tla); fills cov."""
     mlr = vlib.build_mlr()
     thorough = tier == "thorough"
     level = 4 if thorough else 3
     ab = Alphabet(seed)
-    cov = {"tlc_runs": [], "samples": [], "representatives": {k: v for k, v in ab.rep.items() if len(REPS[k]) > 1}}
+    cov.update({"tlc_runs": [], "samples": [], "representatives": {k: v for k, v in ab.rep.items() if len(REPS[k]) > 1}})
 
     # ---- the laws of the property on the specification itself ---------------------------------------------------
     laws = b3.check_laws("StringsMC", {"MaxLen": level})
@@ -378,20 +950,62 @@ def run(tier, seed):
                 "verb (formats); distinct by case" % (level, ", ".join("%s %d" % (f, k) for f, k in perfn.items())),
         "exhaustive": True, "mlr_processes": nproc, "cases_per_function": perfn,
     })
+    vlib.log("[c15] strings section done, %.0fs" % (time.time() - t0))
+
+
+ASSUMPTIONS = [
+    "decided: the case-analysis part of the string library and the regular-expression functions and verbs on a documented "
+    "sub-language; NOT checked: md5/sha/crc32, base64/hex, latin1/utf8, float formats, strftime/strfntime, format-values, "
+    "case, clean-whitespace, unspace, utf8-to-latin1 (no TLA+ oracle: DESIGN.md §6)",
+    "one representative per abstract character (the seed picks among three per class); characters of a class are assumed to behave "
+    "alike; whitespace is space and tab only; no combining marks, no invalid UTF-8",
+    "strings come from JSON string fields (never type-inferred); in the strings section they contain no digits, so type inference of "
+    "results plays no role; in the regex section only the text and typeof() of results are observed",
+    "where the help texts are silent the specification admits every reading: substr/substr0/substr1 and truncate outside the string "
+    "(error, absent or any substring), a slice bound 0 (error or trimmed), which whitespace character survives a collapsed run, "
+    "Unicode or ASCII-only case mapping of non-ASCII letters, which occurrence index() reports, overlapping gssub matches, splitting "
+    "the empty string, and for formats the points where C printf and Go fmt differ ('+'/' ' with x X o b, '#' with 0, '#' with '0' and "
+    "a width); negative values with x X o b, precisions, %i %u %s are left out",
+    "regex section: the regex sub-language is literals, '.', [..] with ranges and negation, \\d, an escaped '.', concatenation, '|', "
+    "greedy * + ?, one level of capturing groups (a quantified group cannot match the empty string), ^ and $; subjects of at most 3 "
+    "(thorough: 4) characters; the meaning of a match is the one pkg.go.dev/regexp documents (leftmost, then what a backtracking "
+    "search finds first; 'All': successive non-overlapping matches, an empty match abutting a preceding match is ignored); left "
+    "open: whether captures survive from one record to the next, the indices strmatchx reports for empty pieces, a \"\\1\" "
+    "literal passed to sub/gsub while captures of =~ are set, renames that collide, empty records",
+    "the observation plumbing (NR, typeof, is_error, the dot operator, json_stringify, print, assignment to a new field, the JSON "
+    "reader and writer) and LANG=en_US.UTF-8 for %_d are trusted",
+]
+
+
+def run(tier, seed):
+    t0 = time.time()
+    V = vlib.Verdicts(PROP)
+    only = os.environ.get("VERIF_C15_ONLY", "")          # development aid: "regex" or "strings" runs one section (evidence says so)
+    cov = {"tlc_runs": [], "samples": []}
+    if only != "regex":
+        strings_section(tier, seed, V, cov, t0)
+    else:
+        cov.update({"states": 0, "transitions": 0, "traces_validated_against_impl": 0, "evaluations": 0, "distinct_nontrivial": 0,
+                    "rule": "(strings section skipped: VERIF_C15_ONLY=regex)", "exhaustive": True})
+    if only != "strings":
+        st, tr, nobs, nev, nnt = rx_section(tier, seed, V, cov)
+        rx = cov["regex"]
+        cov["states"] += st
+        cov["transitions"] += tr
+        cov["traces_validated_against_impl"] += nobs
+        cov["evaluations"] += nev
+        cov["distinct_nontrivial"] += nnt
+        cov["rule"] += ("; regex section: every pattern of RegexCases.tla at level %d (%d patterns: single items, pairs, triples, anchored, "
+                        "alternations, one-level groups, escapes) x every subject of its alphabet (a A b 1 and a 2-byte character, up to "
+                        "%d characters) x case-sensitive / case-insensitive x 5 spellings of the regex x 12 results (sub, gsub with and "
+                        "without references, regextract, regextract_or_else, strmatch, strmatchx, =~, !=~ and the captures after them), "
+                        "plus %d programs with several regex operations in one process (one process each); non-trivial = the subject "
+                        "contains an upper-case letter or a multi-byte character (call family), every constrained program"
+                        % (4 if tier == "thorough" else 3, rx["patterns"], 4 if tier == "thorough" else 3, rx["program_processes"]))
+    if only:
+        cov["only_section"] = only
     rc = V.finish()
-    vlib.write_evidence(PROP, tier, seed, time.time() - t0, cov, [
-        "only the case-analysis part of C15 is decided: regex functions and captures, md5/sha/crc32, base64/hex, latin1/utf8, float "
-        "formats, strftime/strfntime and the verbs that wrap these functions are NOT checked (no TLA+ oracle: DESIGN.md §6)",
-        "one representative per abstract character (the seed picks among three per class); characters of a class are assumed to behave "
-        "alike; whitespace is space and tab only; no combining marks, no invalid UTF-8",
-        "strings come from JSON string fields (never type-inferred) and contain no digits, so type inference of results plays no role",
-        "where the help texts are silent the specification admits every reading: substr/substr0/substr1 and truncate outside the string "
-        "(error, absent or any substring), a slice bound 0 (error or trimmed), which whitespace character survives a collapsed run, "
-        "Unicode or ASCII-only case mapping of non-ASCII letters, which occurrence index() reports, overlapping gssub matches, splitting "
-        "the empty string, and for formats the points where C printf and Go fmt differ ('+'/' ' with x X o b, '#' with 0, '#' with '0' and "
-        "a width); negative values with x X o b, precisions, %i %u %s are left out",
-        "the observation plumbing (NR, typeof, is_error, the dot operator, json_stringify, print) and LANG=en_US.UTF-8 for %_d are trusted",
-    ], len(V.violations))
+    vlib.write_evidence(PROP, tier, seed, time.time() - t0, cov, ASSUMPTIONS, len(V.violations))
     return rc
 
 
